@@ -1,7 +1,7 @@
 SPECIFICATION MSpec
 CONSTANTS
   Routers = {"P", "L"}
-  Ops = {"Authorize", "Login", "Callback", "CodeExchange", "Refresh"}
+  Ops = {"Authorize", "Login", "Callback", "CodeExchange", "Refresh", "Withdraw"}
   MaxReq = 3
   MaxCode = 4
   MaxAT = 6
